@@ -336,6 +336,11 @@ def c07_d(ctx: Ctx):
     # (shlex) strips the backslashes of regular-expression values
     pf0 = ctx.fn("signac.filterparse:parse_filter")
     lex = [c for c in body_nodes(pf0) if isinstance(c, ast.Call) and (common.ext_name(ctx, pf0, c) or "").startswith("shlex.")]
+    if not lex:
+        # ... also when the tokeniser sits in a helper of the same module that parse_filter calls
+        for g in ctx.calls.closure([pf0]).values():
+            if g.module.name == pf0.module.name and g.qual != pf0.qual:
+                lex += [c for c in body_nodes(g) if isinstance(c, ast.Call) and (common.ext_name(ctx, g, c) or "").startswith("shlex.")]
     spl = [c for c in body_nodes(pf0) if isinstance(c, ast.Call) and isinstance(c.func, ast.Attribute) and c.func.attr == "split" and canon(c.func.value) == pf0.params[0]]
     if lex:
         out.append(ctx.viol(R, pf0, lex[0], f"the string form of a filter is tokenised with {canon(lex[0].func)}: backslashes and quotes inside values are consumed, so "
